@@ -37,6 +37,29 @@ Theorem C06_error_only_if : forall px py x y e, unify px py x y = Err e ->
                                    compared bx by_ a b /\ compat a b = Err AttrErr.
 Proof. exact unify_error_inv. Qed.
 
+(* ... and that hypothesis cannot be dropped: "False otherwise" is refuted when the inputs mix the feature systems *)
+Theorem C06_otherwise_false_mixed_refuted : exists px py x y, ~ matches px py x y /\ unify px py x y = Err AttrErr.
+Proof. exact otherwise_false_mixed_witness. Qed.
+(* the exact outcome once shape and agreement hold: the tests `comparisons` are run in order (variables in order of
+   first occurrence in the first pattern, leaves left to right); the first test that is not true decides *)
+Theorem C06_outcome : forall px py x y bx by_, binds px x = Some bx -> binds py y = Some by_ -> vars_agree (bx ++ by_) ->
+  unify px py x y =
+  match run_tests (comparisons bx by_) with
+  | Err e => Err e
+  | Ok_ false => Ok_ None
+  | Ok_ true => Ok_ (Some {| ucats := set_all (bx ++ by_) []; umap := build_map (comparisons bx by_) [] |})
+  end.
+Proof. exact unify_outcome_ordered. Qed.
+Theorem C06_error_iff : forall px py x y e, unify px py x y = Err e <->
+  e = AttrErr /\ exists bx by_ pre a b post, binds px x = Some bx /\ binds py y = Some by_ /\ vars_agree (bx ++ by_) /\
+     comparisons bx by_ = pre ++ (a, b) :: post /\ all_ok pre /\ compat a b = Err AttrErr.
+Proof. exact unify_error_iff. Qed.
+Theorem C06_false_iff : forall px py x y, unify px py x y = Ok_ None <->
+  ~ (shape px x /\ shape py y /\ vars_agree (bindings px py x y)) \/
+  exists bx by_ pre a b post, binds px x = Some bx /\ binds py y = Some by_ /\ vars_agree (bx ++ by_) /\
+     comparisons bx by_ = pre ++ (a, b) :: post /\ all_ok pre /\ compat a b = Ok_ false.
+Proof. exact unify_false_iff. Qed.
+
 (* ---- bindings ---- *)
 Theorem C06_binding_shape : forall px py x y st v c, unify px py x y = Ok_ (Some st) -> uget st v = Ok_ c ->
   exists c0, last_binding v (bindings px py x y) = Some c0 /\ binding_of (obinds px x) (obinds py y) c c0.
@@ -44,6 +67,11 @@ Proof. exact binding_shape. Qed.
 Theorem C06_binding_xor : forall px py x y st v c, unify px py x y = Ok_ (Some st) -> uget st v = Ok_ c ->
   exists c0, last_binding v (bindings px py x y) = Some c0 /\ cat_xor c c0 = true.
 Proof. exact binding_xor. Qed.
+(* exactly: every variable feature stands for the feature it was last instantiated with *)
+Theorem C06_binding_exact : forall px py x y st v c, unify px py x y = Ok_ (Some st) -> uget st v = Ok_ c ->
+  exists c0, last_binding v (bindings px py x y) = Some c0 /\ skeleton c = skeleton c0 /\
+             leaf_feats c = map (instantiate_feat (comparisons (obinds px x) (obinds py y))) (leaf_feats c0).
+Proof. exact binding_exact. Qed.
 Theorem C06_binding_feats_from_inputs : forall px py x y st v c f, unify px py x y = Ok_ (Some st) -> uget st v = Ok_ c ->
   In f (leaf_feats c) -> In f (leaf_feats x ++ leaf_feats y).
 Proof. exact binding_feats_from_inputs. Qed.
@@ -84,6 +112,13 @@ Theorem C06_linear_vars_agree : forall px py x y bx by_, linear_pattern px = tru
   binds px x = Some bx -> binds py y = Some by_ ->
   (vars_agree (bx ++ by_) <-> forall v cx cy, In (v, cx) bx -> In (v, cy) by_ -> cat_xor cx cy = true).
 Proof. exact linear_vars_agree. Qed.
+(* x_features keys in order; the shared keys are those of the variables occurring in both patterns *)
+Theorem C06_linear_shared : forall px py x y bx by_ c1 xf c2 yf, linear_pattern px = true -> linear_pattern py = true ->
+  binds px x = Some bx -> binds py y = Some by_ -> scan px x [] [] = (true, c1, xf) -> scan py y c1 [] = (true, c2, yf) ->
+  map fst xf = flat_map (fun vc => map fst (entries vc)) bx /\
+  shared xf yf = flat_map (fun vc => map fst (entries vc)) (filter (fun vc => text_in (fst vc) (pattern_vars py)) bx).
+Proof. exact linear_shared. Qed.
+
 (* ---- non-vacuity ---- *)
 (* "a/b", "b" against S[X]/NP[X], NP[mod]  (the example of the class docstring): a = S[mod] *)
 Definition ex_px : cat := fst (nth 0 en_pairs (Atom [] FNone, Atom [] FNone)).
@@ -117,3 +152,9 @@ Example ex_repeated : (match unify ex_rep (Atom [98] FNone) (Fun (Atom [83] (FUn
                        | Ok_ (Some st) => uget st [97] | _ => Err TypeErr end) = Ok_ (Atom [83] (FUn [100]))
                       /\ unify ex_rep (Atom [98] FNone) (Fun (Atom [83] FNone) [cSL] (Atom [78] FNone)) (Atom [78] FNone) = Ok_ None.
 Proof. split; vm_compute; reflexivity. Qed.
+(* one variable feature meets two values: the later test wins ("a/b", "b" with b = NP[X]/N[X] against NP[dcl]/N[b]) *)
+Example ex_last_wins :
+  (match unify ex_px ex_py (Fun (Atom [83] (FUn [88])) [cSL] (Fun (Atom [78;80] (FUn [88])) [cSL] (Atom [78] (FUn [88]))))
+                           (Fun (Atom [78;80] (FUn [100;99;108])) [cSL] (Atom [78] (FUn [98]))) with
+   | Ok_ (Some st) => uget st [97] | _ => Err TypeErr end) = Ok_ (Atom [83] (FUn [98])).
+Proof. vm_compute. reflexivity. Qed.
